@@ -203,6 +203,16 @@ class TokenStreamHooks(SelfHooks):
         state.env['__pos'] = pos + 1
         return items[pos]
 
+    def take(self, interp, v, state):
+        if isinstance(v, A.Sym) and v.label in ('rawstream', 'expandedstream'):
+            items = self.raw if v.label == 'rawstream' else self.expanded
+            pos = state.env.get('__pos', 0)
+            if pos >= len(items):
+                return A.STOP
+            state.env['__pos'] = pos + 1
+            return items[pos]
+        return NotImplemented
+
     def call(self, interp, node, fname, args, kwargs, state):
         if fname in ('self.itertokens', 'tex.itertokens') and not args:
             return A.Sym('rawstream')
